@@ -60,7 +60,7 @@ theorem asInv_of_view {e e' : Ep} (h : e'.asView = e.asView) (hi : ASInv e) : AS
 theorem asInv_sendMessage (e : Ep) (m : Msg) (hi : ASInv e) : ASInv (sendMessage e m) := by
   intro x hx
   have := asOK_mono [] [m] (hi x hx)
-  simpa [sendMessage, kaReset, idleReset] using this
+  simpa [sendMessage, sendReady, kaReset, idleReset] using this
 
 theorem asInv_sendContact (e : Ep) (hi : ASInv e) : ASInv (sendContact e) :=
   asInv_of_view (e := sendMessage e (.contact 0)) rfl (asInv_sendMessage e _ hi)
@@ -119,7 +119,7 @@ theorem asInv_writeConn (e : Ep) (n : Nat) (up : Bool) (hi : ASInv e) : ASInv (w
     · exact hi
   · simp only []
     split
-    · exact asInv_of_view (sv_doClose e) hi
+    · exact hi
     · split
       · exact asInv_of_view (by rw [sv_checkSessTerm]; rfl) hi
       · exact asInv_of_view rfl hi
@@ -199,12 +199,12 @@ theorem asInv_onAck (e0 : Ep) (f t l : Nat) (hi : ASInv e0) :
   have rej : ∀ (e1 : Ep), e1.processed = e0.processed ++ [.xferAck f t l] → e1.successLog = e0.successLog →
       e1.emitted = e0.emitted → ∀ r, ASInv (sendReject e1 r (.xferAck f t l)) := by
     intro e1 hp hs he r
-    refine hold _ (by simpa [sendReject, sendMessage, kaReset, idleReset] using hp) ?_ ?_
+    refine hold _ (by simpa [sendReject, sendMessage, sendReady, kaReset, idleReset] using hp) ?_ ?_
     · intro x hx
       have := asOK_mono [] [Msg.msgReject (Msg.xferAck f t l).type r] (hi x hx)
-      simpa [sendReject, sendMessage, kaReset, idleReset, hs, he] using this
+      simpa [sendReject, sendMessage, sendReady, kaReset, idleReset, hs, he] using this
     · intro _
-      exact Or.inr ⟨.msgReject (Msg.xferAck f t l).type r, by simp [sendReject, sendMessage, kaReset, idleReset], rfl⟩
+      exact Or.inr ⟨.msgReject (Msg.xferAck f t l).type r, by simp [sendReject, sendMessage, sendReady, kaReset, idleReset], rfl⟩
   unfold onAck
   split
   · (refine rej _ ?_ ?_ ?_ _ <;> rfl)
@@ -323,7 +323,9 @@ theorem asInv_step (e : Ep) (ev : Ev) (hi : ASInv e) : ASInv (step e ev).1 := by
     simp only []
     split
     · exact hi
-    · exact asInv_pump _ _ hi
+    · split
+      · exact hi
+      · exact asInv_of_view rfl (asInv_pump _ _ (asInv_of_view (e := e) rfl hi))
   | rx c =>
     simp only []
     split
